@@ -67,11 +67,21 @@ def _statemc(props_hint, tier, asan_too=True, raw_too=False, limits=False):
     return jobs
 
 
+def _bisim(tier):
+    """self-check of the explicit-state search: every history merged into a known state gets its one-step successors recomputed, each must be a known
+    state (single process, so that every state is expanded by the process that merges)"""
+    q = tier == "quick"
+    return [J("statemc", "plain", ["--alphabet", "micro", "--depth", "3" if q else "4", "--cfg", "0", "--bisim", "1"]),
+            J("statemc", "plain", ["--alphabet", "macro", "--depth", "4" if q else "5", "--cfg", "0", "--bisim", "1"]),
+            J("statemc", "plain", ["--alphabet", "micro", "--depth", "3" if q else "4", "--cfg", "1", "--raw", "1", "--bisim", "1"])]
+
+
 def _edits(tier, flavour="plain", cfgs=(0,), devs=False):
     """E1 cutmc edits: base exchanges with <= E token-level edits under every schedule with <= P preemptions (defaults: quick E=1 P=1,
     thorough E=2 P=2/1), one job per configuration of the statemc menu; devs: additionally every execution is repeated with one callback
     deviation (DECLINED / STOP / ERROR at the n-th callback, every n)"""
-    jobs = [J("cutmc", flavour, ["--mode", "edits", "--cfg", str(c)]) for c in cfgs]
+    # thorough: two edits under the first configuration, one edit (two preemptions) under the others
+    jobs = [J("cutmc", flavour, ["--mode", "edits", "--cfg", str(c)] + ([] if (tier == "quick" or i == 0) else ["--edits", "1", "--preempt", "2"])) for i, c in enumerate(cfgs)]
     if devs:
         jobs.append(J("cutmc", flavour, ["--mode", "edits", "--cfg", "0", "--devs", "1", "--edits", "1", "--preempt", "1" if tier == "quick" else "2"]))
     return jobs
@@ -101,7 +111,7 @@ CHECKS["C05"] = {
     "bounds": {"quick": "micro depth 4 (2 cfgs), macro depth 5 (2 cfgs), micro depth 3 with one callback deviation", "thorough": "micro depth 5, macro depth 7/6, deviations to depth 4, 4 cfgs"},
     "mc_explanation": "states/transitions are those of the implementation itself (no model): the transition function is htp_connp_req_data/res_data/close on a replayed history",
     "assumptions": ["token alphabets of mc/statemc.c", "exact canonical state (DESIGN §4.3)"],
-    "jobs": lambda tier: _statemc("C05", tier, asan_too=False) + _edits(tier, cfgs=(0, 1)),
+    "jobs": lambda tier: _statemc("C05", tier, asan_too=False) + _edits(tier, cfgs=(0, 1)) + _bisim(tier),
 }
 
 
@@ -394,8 +404,9 @@ CHECKS["C08"] = {
     "level_note": "An asymptotic claim is decided only up to the ladder top; caps that sit above the ladder would be missed (the largest, the 100 KiB folded-header cap, is inside it). realloc is "
                   "metered as moving the whole block, which is pessimistic. The constants 17000 and 60000 are 4x the largest values measured on linear shapes (fold lines below the cap; inflateInit).",
     "design_ref": "DESIGN.md §6 C08",
-    "rule": "state x unit x ending x delivery, ladder k=64.. ; distinct = distinct (state, work-per-byte class) outcomes",
+    "rule": "state (34) x unit (52) x ending {proper suffix, abrupt close} x delivery {one call, 1-byte calls, prefix in its own call then the rest in one call}, ladder k=64.. ; distinct = distinct (state, work-per-byte class) outcomes",
     "bounds": {"quick": "ladder to 1 MiB / 6e8 work units; 1-byte delivery to 8 KiB", "thorough": "ladder to 4 MiB"},
+    "deadline": {"quick": 420},
     "assumptions": ["IDS personality, logging off"],
     "jobs": lambda tier: [J("pump", "cost")],
 }
